@@ -102,6 +102,21 @@ CHECKS = {
                    "Flush offsets define what the client has received",
         "assumptions": E2E_ASSUME + ["unflushed bytes are invisible to the client, flushed bytes are visible at once (recorder model of the connection)"],
     },
+    "C17": {
+        "module": "Vanguard.Props.C17", "namespace": "Vanguard.C17", "streams": ["config"],
+        "partial": "proved: selector semantics, option override, soundness of acceptance for options/duplicate methods/selectors, bindings never "
+                   "answered 404; NOT proved: completeness of acceptance and that accepted tables are exactly the declared bindings (compared with "
+                   "the implementation on every generated configuration: accept/reject, dumped tables, probe per binding); rules loaded from "
+                   "google.api.http annotations and REST traffic through accepted configurations belong to C20/C07",
+        "assumptions": [
+            "the schema is the harness's fixed cfg.v1 file (3 services with prefix-related names, 9 methods, nested/repeated/message fields); "
+            "the model is generic in the schema, which travels in every op line",
+            "when several things are wrong Go's map iteration order decides which error is reported: the model predicts the set of possible "
+            "error classes, accept/reject itself is order-independent",
+            "error classes are recognised from the error text (harness/config.go classifyConfigErr)",
+        ],
+        "trusted_extra": ["verif hook Transcoder.VerifTables / VerifRouteMatch (read-only dump of methods and REST routes)"],
+    },
     "C18": {
         "module": "Vanguard.Props.C18", "namespace": "Vanguard.C18", "streams": ["e2e"],
         "partial": "no I/O after return is observed by the harness (vanguard starts no goroutine), not modelled",
